@@ -94,6 +94,14 @@ pub(super) async fn receive_batch_multipart(
                 if let Some(name) = field.name().map(ToString::to_string)
                     && let Some(filename) = field.file_name().map(ToString::to_string)
                 {
+                    // `max_num_files` limits the number of file parts, not only the
+                    // number of bytes of the whole body
+                    if let Some(max_num_files) = opts.max_num_files
+                        && files.len() >= max_num_files
+                    {
+                        return Err(ParseRequestError::PayloadTooLarge);
+                    }
+
                     let content_type = field.content_type().map(ToString::to_string);
 
                     #[cfg(feature = "tempfile")]
